@@ -118,6 +118,17 @@ Section Pass.
     exec_stmt catch t v (SAssign y k (nexpr e)) = ((set_cell num v y q x, None), le ++ [Acc true y (t + k) (Some q)]).
   Proof. intros He Hq. cbn [Eval.exec_stmt]. unfold row. rewrite He, Hq. reflexivity. Qed.
 
+  (* ---- a conditional evaluates its comparison, then ONLY the branch taken: the other branch is neither evaluated nor
+          read (Python's short-circuit; `and` / `or` / `not` are nestings of this, see CodeGen.mk_if) ---- *)
+  Theorem conditional_short_circuit o (l r a b : sexpr) catch t v x y ll lr :
+    eval_expr catch t v (nexpr l) = (EVal x, ll) -> eval_expr catch t v (nexpr r) = (EVal y, lr) ->
+    eval_expr catch t v (nexpr (EIf o l r a b)) =
+    (let '(res, lx) := eval_expr catch t v (nexpr (if cmp_sem num ltb leb eqb o x y then a else b)) in (res, ll ++ lr ++ lx)).
+  Proof.
+    intros Hl Hr. cbn [expr_map Eval.eval_expr]. rewrite Hl, Hr.
+    destruct (cmp_sem num ltb leb eqb o x y); reflexivity.
+  Qed.
+
   (* ---- locality of the value: only the cells named by the statement's own terms matter ---- *)
   Theorem script_value_local (e : sexpr) catch t (v v' : vals num) :
     shape v' = shape v ->
